@@ -381,6 +381,8 @@ pub fn generate_c18(rng: &mut Rng) -> Scenario {
 pub enum Verdict {
     Ok(Reply),
     Failed(String),
+    /// the statement does not say (a decodable reply carrying an Error-level diagnostic of the generator's own)
+    Unspecified,
 }
 
 /// Files that decode from the front of a reply, stopping at the first problem.
@@ -418,6 +420,7 @@ pub fn verdict(h: &GenHistory) -> Verdict {
         None => return Verdict::Failed("never collected".into()),
     }
     match decode_reply(&h.stdout) {
+        Ok((reply, _)) if reply.diagnostics.iter().any(|d| d.level >= 2) => Verdict::Unspecified,
         Ok((reply, _)) => Verdict::Ok(reply),
         Err(e) => Verdict::Failed(format!("reply of {} bytes does not decode: {e}", h.stdout.len())),
     }
@@ -616,7 +619,14 @@ pub fn judge(s: &Scenario, r: &RunResult) -> Judged {
         match vd {
             Verdict::Ok(_) => out.ok_generators += 1,
             Verdict::Failed(_) => out.failed_generators += 1,
+            Verdict::Unspecified => {}
         }
+    }
+    if verdicts.iter().any(|v| matches!(v, Verdict::Unspecified)) {
+        // whether such a generator counts as failed, and whether its files are written, is not fixed by the
+        // statement: nothing beyond "no crash, no hang, everybody was started" is judged in this run
+        out.probes.push("reply with an Error-level generator diagnostic (unspecified)");
+        return out;
     }
 
     // ---- 2. every failed generator is named by an error; generators that did fine are not blamed
